@@ -438,4 +438,335 @@ structure InvL (s : State) : Prop where
   nbad : s.bad = false
   lv : s.dead = false → LvlOk s
 
+theorem order_of_p2 {m x : Nat} (h : P2 m x) : x = 2 ^ order x := by
+  obtain ⟨k, _, rfl⟩ := h; rw [order_two_pow]
+
+theorem two_pow_eq_iff {a b : Nat} : 2 ^ a = 2 ^ b ↔ a = b :=
+  ⟨fun h => by
+    have h1 := two_pow_le_two_pow.mp (Nat.le_of_eq h)
+    have h2 := two_pow_le_two_pow.mp (Nat.le_of_eq h.symm)
+    omega, fun h => h ▸ rfl⟩
+
+theorem order_shl_one {i : Nat} (h : i ≤ 63) : order (shl 1 i) = i := by
+  rw [shl_one (by omega), order_two_pow]
+
+theorem invL_rz {c : Cfg} (hc : c.mo ≤ 63) {s s' : State} (hA : InvA c s) (hD : InvD c s) (h : InvL s)
+    (st : rzStep s = some s') : InvL s' ∧ s.dead = false := by
+  have hdead : s.dead = false := by
+    cases hd : s.dead with
+    | false => rfl
+    | true =>
+      have := (hD.p4 hd).2.2.2.2
+      simp [rzStep, this] at st
+  obtain ⟨hb, hl⟩ := h
+  have hl := hl hdead
+  obtain ⟨⟨a, ha, hsz⟩, ⟨b, hb', htg⟩, -, h4⟩ := hA
+  have hos : order s.size = a := by rw [hsz, order_two_pow]
+  refine ⟨?_, hdead⟩
+  cases hr : s.rpc <;> simp only [rzStep, hr, reduceCtorEq] at st <;> simp only [hr, RpcOk] at h4 <;>
+    simp only [LvlOk, hr] at hl
+  all_goals (repeat' split at st)
+  all_goals simp only [Option.some.injEq] at st
+  all_goals subst st
+  all_goals (try simp only [hsz, two_pow_eq_iff] at h4)
+  all_goals constructor
+  all_goals (try intro)
+  all_goals (try simp only [LvlOk])
+  all_goals simp only [upd, FrOk, base, freeOk_eq, removeOk_eq, Bool.or_eq_false_iff, bne_eq_false_iff_eq, Bool.not_eq_false', hb, Bool.false_or] at *
+  all_goals grind [unpubLt_mono, removedLt_mono, unpubLt_self, removedLt_self, unpubLt_ne, removedLt_ne, order_shl_one]
+
+
+theorem stable_any_false {s : State} (h : ∀ j, s.lvl j = base (order s.size) j) :
+    ((List.range (order s.size + 1)).reverse.any fun j => s.lvl j != .linked) = false := by
+  rw [List.any_eq_false]
+  intro j hj
+  simp only [List.mem_reverse, List.mem_range] at hj
+  rw [h j]; simp [base]; omega
+
+theorem lvlOk_congr {s s' : State} (e1 : s'.rpc = s.rpc) (e2 : s'.lvl = s.lvl) (e3 : s'.gp = s.gp) (e4 : s'.size = s.size)
+    (h : LvlOk s) : LvlOk s' := by
+  unfold LvlOk at *
+  rw [e1, e2, e3, e4]; exact h
+
+theorem lvlOk_lock {s s' : State} (e0 : s.rpc = .idle) (e1 : s'.rpc = .top) (e2 : s'.lvl = s.lvl) (e4 : s'.size = s.size)
+    (h : LvlOk s) : LvlOk s' := by
+  unfold LvlOk at *
+  rw [e0] at h
+  rw [e1, e2, e4]; exact h
+
+theorem invL_step {c : Cfg} (hc : c.mo ≤ 63) {s s' : State} {op : Op} (hA : InvA c s) (hD : InvD c s) (h : InvL s)
+    (st : step c s op = some s') : InvL s' := by
+  cases op with
+  | rz =>
+    simp only [step, Option.map_eq_some_iff] at st
+    obtain ⟨s1, h1, rfl⟩ := st
+    obtain ⟨⟨g1, g2⟩, g3⟩ := invL_rz hc hA hD h h1
+    exact ⟨by simp [g1, g3], g2⟩
+  | lazyGrow t sz growth =>
+    simp only [step] at st
+    split at st
+    · simp only [Option.some.injEq] at st; subst st
+      exact ⟨h.1, fun hd => lvlOk_congr rfl rfl rfl rfl (h.2 hd)⟩
+    · cases st
+  | lazyCount t sz count =>
+    simp only [step] at st
+    split at st
+    · split at st
+      · simp only [Option.some.injEq] at st; subst st; exact h
+      · split at st
+        all_goals simp only [Option.some.injEq] at st
+        all_goals subst st
+        all_goals exact ⟨h.1, fun hd => lvlOk_congr rfl rfl rfl rfl (h.2 hd)⟩
+    · cases st
+  | cas t =>
+    simp only [step] at st
+    split at st
+    · simp only [Option.some.injEq] at st; subst st
+      exact ⟨h.1, fun hd => lvlOk_congr rfl rfl rfl rfl (h.2 hd)⟩
+    · cases st
+  | launch t =>
+    simp only [step] at st
+    split at st
+    all_goals (try (cases st; done))
+    all_goals simp only [Option.some.injEq] at st
+    all_goals subst st
+    all_goals exact ⟨h.1, fun hd => lvlOk_congr rfl rfl rfl rfl (h.2 hd)⟩
+  | resizeCall t req =>
+    simp only [step] at st
+    split at st
+    · simp only [Option.some.injEq] at st; subst st
+      exact ⟨h.1, fun hd => lvlOk_congr rfl rfl rfl rfl (h.2 hd)⟩
+    · cases st
+  | resizeInit t =>
+    simp only [step] at st
+    split at st
+    · simp only [Option.some.injEq] at st; subst st
+      exact ⟨h.1, fun hd => lvlOk_congr rfl rfl rfl rfl (h.2 hd)⟩
+    · cases st
+  | resizeLock t =>
+    simp only [step] at st
+    split at st
+    · rename_i hg
+      simp only [Option.some.injEq] at st; subst st
+      exact ⟨h.1, fun hd => lvlOk_lock hg.2 rfl rfl rfl (h.2 hd)⟩
+    · cases st
+  | destroyQueue t =>
+    simp only [step] at st
+    split at st
+    · simp only [Option.some.injEq] at st; subst st
+      exact ⟨h.1, fun hd => lvlOk_congr rfl rfl rfl rfl (h.2 hd)⟩
+    · cases st
+  | workerLock =>
+    simp only [step] at st
+    split at st
+    · rename_i hg
+      simp only [Option.some.injEq] at st; subst st
+      exact ⟨h.1, fun hd => lvlOk_lock hg.2 rfl rfl rfl (h.2 hd)⟩
+    · cases st
+  | workerTake =>
+    simp only [step] at st
+    split at st
+    · split at st
+      · cases st
+      · rename_i q hq
+        simp only [Option.some.injEq] at st; subst st
+        have hdead : s.dead = false := by
+          cases hd : s.dead with
+          | false => rfl
+          | true => have := (hD.p4 hd).2.2.1; rw [this] at hq; cases hq
+        exact ⟨by simp [h.1, hdead], fun hd => lvlOk_congr rfl rfl rfl rfl (h.2 hd)⟩
+      · simp only [Option.some.injEq] at st; subst st
+        exact ⟨h.1, fun hd => lvlOk_congr rfl rfl rfl rfl (h.2 hd)⟩
+    · cases st
+  | workerDestroy =>
+    simp only [step] at st
+    split at st
+    · rename_i hw
+      simp only [Option.some.injEq] at st; subst st
+      obtain ⟨-, hq, hrp, hdd⟩ := hD.p3 hw
+      have hl := h.2 hdd
+      simp only [LvlOk, hrp] at hl
+      refine ⟨?_, ?_⟩
+      · simp [deleteBuckets, h.1, hdd, stable_any_false hl, hrp, hq]
+      · intro hd; simp [deleteBuckets] at hd
+    · cases st
+  | destroy t =>
+    simp only [step] at st
+    split at st
+    · rename_i hg
+      split at st
+      · simp only [Option.some.injEq] at st; subst st
+        exact ⟨h.1, fun hd => lvlOk_congr rfl rfl rfl rfl (h.2 hd)⟩
+      · split at st
+        · rename_i hrp
+          simp only [Option.some.injEq] at st; subst st
+          have hdd : s.dead = false := by simpa using hg.2.2.2.2
+          have hl := h.2 hdd
+          simp only [LvlOk, hrp] at hl
+          refine ⟨?_, ?_⟩
+          · have := stable_any_false hl
+            simp [deleteBuckets, h.1, hdd, this]
+          · intro hd; simp [deleteBuckets] at hd
+        · cases st
+    · cases st
+
+/-! ## all three invariants hold in every reachable state -/
+
+structure Inv (c : Cfg) (s : State) : Prop where
+  a : InvA c s
+  d : InvD c s
+  l : InvL s
+
+theorem invL_init (k : Nat) : InvL (init k) := by
+  refine ⟨rfl, fun _ => ?_⟩
+  simp only [LvlOk, init, order_two_pow]
+  intro j; rfl
+
+theorem inv_reach {c : Cfg} (hc : c.mo ≤ 63) {k : Nat} (hk : k ≤ c.mo) {s : State} (h : Reach c k s) : Inv c s := by
+  induction h with
+  | init => exact ⟨invA_init c k hk, invD_init c k, invL_init k⟩
+  | step _ st ih => exact ⟨invA_step hc ih.a st, invD_step ih.d st, invL_step hc ih.a ih.d ih.l st⟩
+
+/-! ## termination of the resizer -/
+
+/-- value of the measure at `clr` -/
+def clrV (s : State) : Nat := if s.size = s.target then 2 else 528
+/-- what remains after the current pass: 2 if the pass will end with `size = target` -/
+def tailV (exact : Bool) : Nat := if exact then 2 else 528
+
+/-- termination measure of the resizer running alone with `in_progress_destroy = 0` -/
+def mu (s : State) : Nat :=
+  match s.rpc with
+  | .idle => 0
+  | .cond => if s.size = s.target then 1 else 527
+  | .clr => clrV s
+  | .top => 526
+  | .read => 525
+  | .growChk i last => 8 * (last + 1 - i) + 5 + tailV (decide (2 ^ last = s.target))
+  | .growAlloc i last => 8 * (last + 1 - i) + 4 + tailV (decide (2 ^ last = s.target))
+  | .growPop i last => 8 * (last + 1 - i) + 3 + tailV (decide (2 ^ last = s.target))
+  | .growPub i last => 8 * (last + 1 - i) + 2 + tailV (decide (2 ^ last = s.target))
+  | .growDes i last => 8 * (last + 1 - i) + 1 + tailV (decide (2 ^ last = s.target))
+  | .shrChk i first _ => 8 * (i + 1 - first) + 9 + tailV (decide (2 ^ (first - 1) = s.target))
+  | .shrPub i first _ => 8 * (i + 1 - first) + 8 + tailV (decide (2 ^ (first - 1) = s.target))
+  | .shrSync i first _ => 8 * (i + 1 - first) + 7 + tailV (decide (2 ^ (first - 1) = s.target))
+  | .shrFree i first _ => 8 * (i + 1 - first) + 6 + tailV (decide (2 ^ (first - 1) = s.target))
+  | .shrRemove i first _ => 8 * (i + 1 - first) + 5 + tailV (decide (2 ^ (first - 1) = s.target))
+  | .shrDes i first _ => 8 * (i + 1 - first) + 4 + tailV (decide (2 ^ (first - 1) = s.target))
+  | .tailSync _ => 2 + clrV s
+  | .tailFree _ => 1 + clrV s
+
+theorem mu_decreases {c : Cfg} (hc : c.mo ≤ 63) {s s' : State} (hA : InvA c s) (hd : s.destroy = false)
+    (st : rzStep s = some s') : mu s' < mu s := by
+  obtain ⟨⟨a, ha, hsz⟩, ⟨b, hb, htg⟩, -, h4⟩ := hA
+  cases hr : s.rpc <;> simp only [rzStep, hr, reduceCtorEq, hd, Bool.false_eq_true, if_false] at st <;>
+    simp only [hr, RpcOk] at h4
+  all_goals (repeat' split at st)
+  all_goals simp only [Option.some.injEq] at st
+  all_goals subst st
+  all_goals simp only [mu, hr, clrV, tailV]
+  all_goals (try simp (disch := omega) only [shl_one] at *)
+  all_goals (try simp only [hsz, htg, two_pow_eq_iff, two_pow_lt_two_pow, decide_eq_true_eq, order_two_pow, max_two_pow_min, gt_iff_lt, Nat.add_sub_cancel, ne_eq] at *)
+  all_goals (repeat' split)
+  all_goals (try omega)
+
+
+theorem mu_le (s : State) {c : Cfg} (hc : c.mo ≤ 63) (hA : InvA c s) : mu s ≤ 1100 := by
+  have h4 := hA.rpc_ok
+  cases hr : s.rpc <;> simp only [hr, RpcOk] at h4 <;> simp only [mu, hr, clrV, tailV] <;> (repeat' split) <;> omega
+
+theorem rzStep_isSome {s : State} (h : s.rpc ≠ .idle) : ∃ s', rzStep s = some s' := by
+  cases hr : s.rpc <;> simp only [rzStep, hr] <;> (repeat' split) <;> first | exact ⟨_, rfl⟩ | exact absurd hr h
+
+theorem rzStep_keeps {s s' : State} (st : rzStep s = some s') : s'.target = s.target ∧ s'.destroy = s.destroy := by
+  cases hr : s.rpc <;> simp only [rzStep, hr, reduceCtorEq] at st
+  all_goals (repeat' split at st)
+  all_goals simp only [Option.some.injEq] at st
+  all_goals subst st
+  all_goals exact ⟨rfl, rfl⟩
+
+theorem rzStep_exit {s s' : State} (st : rzStep s = some s') (hd : s.destroy = false) (hi : s'.rpc = .idle) :
+    s'.size = s'.target := by
+  cases hr : s.rpc <;> simp only [rzStep, hr, reduceCtorEq, hd, Bool.false_eq_true, if_false] at st
+  all_goals (repeat' split at st)
+  all_goals simp only [Option.some.injEq] at st
+  all_goals subst st
+  all_goals simp only [reduceCtorEq] at hi
+  all_goals simp_all
+
+/-- the resizer running alone (no further change of `resize_target`, no destroy) releases the mutex
+after at most `mu s` steps, with `size = resize_target` -/
+theorem solo_terminates {c : Cfg} (hc : c.mo ≤ 63) : ∀ (m : Nat) (s : State), mu s ≤ m → InvA c s → s.destroy = false →
+    ∃ n, n ≤ mu s ∧ (soloRun n s).rpc = .idle ∧ (soloRun n s).target = s.target ∧
+      (s.rpc ≠ .idle → (soloRun n s).size = s.target) := by
+  intro m
+  induction m with
+  | zero =>
+    intro s hm hA hd
+    have hidle : s.rpc = .idle := by
+      apply Classical.byContradiction; intro hne
+      obtain ⟨s1, h1⟩ := rzStep_isSome hne
+      have := mu_decreases hc hA hd h1
+      omega
+    exact ⟨0, Nat.zero_le _, hidle, rfl, fun h => absurd hidle h⟩
+  | succ m ih =>
+    intro s hm hA hd
+    by_cases hidle : s.rpc = .idle
+    · exact ⟨0, Nat.zero_le _, hidle, rfl, fun h => absurd hidle h⟩
+    · obtain ⟨s1, h1⟩ := rzStep_isSome hidle
+      have hlt := mu_decreases hc hA hd h1
+      have hk := rzStep_keeps h1
+      obtain ⟨n, hn, r1, r2, r3⟩ := ih s1 (by omega) (invA_rz hc hA h1) (by rw [hk.2]; exact hd)
+      refine ⟨n + 1, by omega, ?_, ?_, ?_⟩
+      · simp only [soloRun, h1]; exact r1
+      · simp only [soloRun, h1]; rw [r2, hk.1]
+      · intro _
+        simp only [soloRun, h1]
+        by_cases hi1 : s1.rpc = .idle
+        · have hex := rzStep_exit h1 hd hi1
+          have : soloRun n s1 = s1 := by
+            cases n with
+            | zero => rfl
+            | succ n => simp [soloRun, rzStep, hi1]
+          rw [this, hex, hk.1]
+        · rw [r3 hi1, hk.1]
+/-- rank of the resizer's program counter once `in_progress_destroy` is set: every step lowers it -/
+def muD (s : State) : Nat :=
+  match s.rpc with
+  | .idle => 0 | .top => 1 | .cond => 2 | .clr => 3 | .tailFree _ => 4 | .tailSync _ => 5
+  | .growDes _ _ => 6 | .growPub _ _ => 7 | .growPop _ _ => 8 | .growAlloc _ _ => 9 | .growChk _ _ => 10
+  | .shrDes _ _ _ => 11 | .shrRemove _ _ _ => 12 | .shrFree _ _ _ => 13 | .shrSync _ _ _ => 14
+  | .shrPub _ _ _ => 15 | .shrChk _ _ _ => 16 | .read => 17
+
+theorem muD_decreases {s s' : State} (hd : s.destroy = true) (st : rzStep s = some s') : muD s' < muD s := by
+  cases hr : s.rpc <;> simp only [rzStep, hr, reduceCtorEq, hd, if_true] at st
+  all_goals (repeat' split at st)
+  all_goals simp only [Option.some.injEq] at st
+  all_goals subst st
+  all_goals simp only [muD, hr]
+  all_goals omega
+
+theorem muD_le (s : State) : muD s ≤ 17 := by
+  unfold muD; split <;> omega
+
+theorem solo_terminates_destroy : ∀ (m : Nat) (s : State), muD s ≤ m → s.destroy = true →
+    ∃ n, n ≤ muD s ∧ (soloRun n s).rpc = .idle := by
+  intro m
+  induction m with
+  | zero =>
+    intro s hm hd
+    have hidle : s.rpc = .idle := by
+      apply Classical.byContradiction; intro hne
+      obtain ⟨s1, h1⟩ := rzStep_isSome hne
+      have := muD_decreases hd h1
+      omega
+    exact ⟨0, Nat.zero_le _, hidle⟩
+  | succ m ih =>
+    intro s hm hd
+    by_cases hidle : s.rpc = .idle
+    · exact ⟨0, Nat.zero_le _, hidle⟩
+    · obtain ⟨s1, h1⟩ := rzStep_isSome hidle
+      have hlt := muD_decreases hd h1
+      obtain ⟨n, hn, r1⟩ := ih s1 (by omega) (by rw [(rzStep_keeps h1).2]; exact hd)
+      exact ⟨n + 1, by omega, by simp only [soloRun, h1]; exact r1⟩
 end UrcuVerif.Lfht.Resize
